@@ -108,6 +108,137 @@ func (c *Ctx) c02Closure() (entries []*ssa.Function, closure map[*ssa.Function]b
 	return
 }
 
+// valueUpperBound: an upper bound of an unsigned/integer value built from input bytes, constants, shifts and
+// bit-or/additions, following the results of module functions; known is false for anything else.
+func valueUpperBound(v ssa.Value, d int) (ub int64, known bool) {
+	if d > 8 || v == nil {
+		return 0, false
+	}
+	const lim = int64(1) << 40
+	clamp := func(x int64) int64 {
+		if x > lim || x < 0 {
+			return lim
+		}
+		return x
+	}
+	byteTyped := func(t types.Type) (int64, bool) {
+		if b, ok := t.Underlying().(*types.Basic); ok {
+			switch b.Kind() {
+			case types.Uint8:
+				return 255, true
+			case types.Uint16:
+				return 65535, true
+			case types.Bool:
+				return 1, true
+			}
+		}
+		return 0, false
+	}
+	if k, ok := v.(*ssa.Const); ok {
+		if k.Value != nil && k.Value.Kind() == constant.Int {
+			if x, exact := constant.Int64Val(k.Value); exact && x >= 0 {
+				return clamp(x), true
+			}
+		}
+		return 0, false
+	}
+	if m, ok := byteTyped(v.Type()); ok {
+		// a byte-sized value, whatever computed it; refine through a mask
+		if bo, isBo := v.(*ssa.BinOp); isBo && bo.Op == token.AND {
+			if a, ka := valueUpperBound(bo.X, d+1); ka && a < m {
+				m = a
+			}
+			if b, kb := valueUpperBound(bo.Y, d+1); kb && b < m {
+				m = b
+			}
+		}
+		return m, true
+	}
+	switch x := v.(type) {
+	case *ssa.Convert:
+		return valueUpperBound(x.X, d+1)
+	case *ssa.ChangeType:
+		return valueUpperBound(x.X, d+1)
+	case *ssa.BinOp:
+		a, ka := valueUpperBound(x.X, d+1)
+		b, kb := valueUpperBound(x.Y, d+1)
+		switch x.Op {
+		case token.SHL:
+			if k, isK := x.Y.(*ssa.Const); isK && ka && k.Value != nil {
+				if sh, exact := constant.Int64Val(k.Value); exact && sh >= 0 && sh < 40 {
+					return clamp(a << uint(sh)), true
+				}
+			}
+		case token.OR, token.ADD, token.XOR:
+			if ka && kb {
+				return clamp(a + b), true
+			}
+		case token.AND:
+			switch {
+			case ka && kb:
+				return min(a, b), true
+			case ka:
+				return a, true
+			case kb:
+				return b, true
+			}
+		case token.MUL:
+			if ka && kb {
+				return clamp(a * b), true
+			}
+		case token.SHR, token.QUO, token.REM:
+			if ka {
+				return a, true
+			}
+		}
+	case *ssa.Phi:
+		m := int64(0)
+		for _, e := range x.Edges {
+			if e == ssa.Value(x) {
+				continue
+			}
+			a, k := valueUpperBound(e, d+2)
+			if !k {
+				return 0, false
+			}
+			m = max(m, a)
+		}
+		return m, true
+	case *ssa.Extract, *ssa.Call:
+		var call *ssa.Call
+		idx := 0
+		if ex, isEx := x.(*ssa.Extract); isEx {
+			call, _ = ex.Tuple.(*ssa.Call)
+			idx = ex.Index
+		} else {
+			call = x.(*ssa.Call)
+		}
+		if call == nil {
+			return 0, false
+		}
+		h := call.Call.StaticCallee()
+		if h == nil || len(h.Blocks) == 0 || h.Pkg == nil || !strings.HasPrefix(h.Pkg.Pkg.Path(), modPath) {
+			return 0, false
+		}
+		m := int64(0)
+		n := 0
+		for _, b := range h.Blocks {
+			r, isR := b.Instrs[len(b.Instrs)-1].(*ssa.Return)
+			if !isR || idx >= len(r.Results) {
+				continue
+			}
+			a, k := valueUpperBound(returnedValue(r, idx), d+2)
+			if !k {
+				return 0, false
+			}
+			n++
+			m = max(m, a)
+		}
+		return m, n > 0
+	}
+	return 0, false
+}
+
 func runC02(c *Ctx) {
 	audit := loadC02Audit()
 	used := map[string]bool{}
@@ -195,6 +326,16 @@ func runC02(c *Ctx) {
 				key := uniq(fk + ":make(" + shortArg(trace(sz)) + ")")
 				if c.sizeBounded(fn, x, sz) {
 					c.Ok("allocation-bounded", key, x.Pos(), "the decoded size is compared against a bound on every path to the allocation")
+					continue
+				}
+				// a size whose reader can only produce small numbers (one or two length bytes) is bounded by construction;
+				// when the reader can produce more, an audited reason that relied on it no longer holds
+				if ub, known := valueUpperBound(sz, 0); known {
+					if ub <= 1<<16 {
+						c.Ok("allocation-bounded", key, x.Pos(), fmt.Sprintf("the size is at most %d by construction of the code that reads it", ub))
+					} else {
+						c.Bad("allocation-bounded", key, x.Pos(), "allocation sized by %s, a length claimed inside the input that can be as large as %d, with no dominating bound: a few input bytes reserve memory proportional to the claimed length", shortArg(trace(sz)), ub)
+					}
 					continue
 				}
 				site("allocation-bounded", key, x.Pos(), "", "allocation sized by "+shortArg(trace(sz))+", a length claimed inside the input, with no dominating bound: memory follows the claimed length, not the input size")
